@@ -238,6 +238,20 @@ def exact_matrices(F, sel, facts):
         viol('transpose_swaps_rows_and_columns', a=a, got=tuple(T))
     if tuple(T.transpose()) != a:
         viol('transpose_is_an_involution')
+    # structured matrices: symmetric except for ONE pair of entries (translations along one axis, projections and
+    # the like are of this kind), and fully symmetric ones
+    pairs = [(i, j) for i in range(4) for j in range(i + 1, 4)]
+    for (pi, pj) in [pairs[sel % 6], pairs[(sel // 6) % 6]]:
+        g = [[F[(i * j + i + j) % 16] if i != j else F[16 + i] for j in range(4)] for i in range(4)]    # symmetric
+        g[pi][pj] = F[40] + 1 if F[40] + 1 != g[pj][pi] else F[40] + 2
+        flat = tuple(g[i][j] for i in range(4) for j in range(4))
+        got = dm.Mat4(flat).transpose()
+        if tuple(got) != tuple(g[j][i] for i in range(4) for j in range(4)):
+            viol('transpose_swaps_rows_and_columns', a=flat, got=tuple(got), differing_pair=(pi, pj))
+    tz = dm.Mat4.from_translation(dm.Vec3(0, 0, F[41] if F[41] else 1))
+    gz = grid(tuple(tz), 4)
+    if tuple(tz.transpose()) != tuple(gz[j][i] for i in range(4) for j in range(4)):
+        viol('transpose_swaps_rows_and_columns', a=tuple(tz), got=tuple(tz.transpose()))
     # inverse: generic, structured and constructed singular matrices
     kind = sel % 6
     m = list(a)
